@@ -294,6 +294,60 @@ CHECKS["C03"] = {
           "at the Ready poll, so the after-death clause of the trace predicate is vacuous there and is carried by the component theorems.",
 }
 
+CHECKS["C05"] = {
+  "text": "Connection level, about the Gallina model of VirtualSocket::poll's send path (Conn/VSock.v), for EVERY state and every abstract "
+          "congestion controller; stated per function (send_tx_queue, new_data_loop, split_tx_queue_into_segments, "
+          "process_all_incoming_messages), not about the whole poll. Theorems (Props/C05.v): c05_new_data_le_window - outside Recovering one "
+          "call of send_tx_queue emits either at most one datagram of the RTO part (timer expired) or new-data datagrams whose payload is <= "
+          "sat_sub(min(cwnd, last_remote_window), calc_flight_size), hence flight + sent <= min(cwnd, rwnd) whenever anything is sent; "
+          "c05_flight_size_exact / c05_true_flight_le_window - the same in terms of the true sum of transmitted-and-undelivered payload under the "
+          "tolerance hypothesis (<= 1024 transmitted segments, no rewind pending); c05_zero_window_budget/_loop/_silent - rwnd = 0 outside "
+          "recovery: the new-data loop sends nothing (needs every segment >= 1 byte: c05_segment_loop_pos shows the segmentation loop keeps that); "
+          "c05_after_rto_single, c05_rto_mode_single - after the RTO part retransmitted the head the counter is positive and each later call "
+          "emits at most the one RTO datagram, only at a further expiry; c05_rto_mode_exit_ack / _exit_probe - the counter is reset only when "
+          "the poll's messages acknowledged or SACKed something new, or (boundary B6) when an expired MTU probe is popped; "
+          "c05_slow_start_bound_partial - PARTIAL: counted flight + sent <= cc.window at every new-data transmission; the bound 2*mss + acked "
+          "bytes on that window is C15's. REFUTED on the real code (reported, not counted as violation): 'after a zero window it sends no new "
+          "payload': the RTO part transmits the head segment even if it was never sent and the window is 0 (case in the note). Predicates "
+          "c05_window_ok, c05_zero_window_ok, c05_rto_single_ok, c05_monitor_ok (Conn/C05_Pred.v, extracted) are evaluated on every "
+          "implementation trace of the vsock correspondence (shared open/closed-loop generators + targeted closed-loop scenarios: zero-window "
+          "episodes, RTO chains to the cap, dup-ACK/SACK fast retransmit).",
+  "design_ref": "DESIGN.md section 6 C05",
+  "note": "Trusted: as C16, plus the vsock correspondence for 'the poll is the composition of these functions'. No axioms. "
+          "Assumed-and-monitored (c05_monitor_ok on every fingerprint): segment payload >= 1, rto_retransmissions >= 0, never-sent undelivered "
+          "segments form a suffix, mss >= 1. The predicates are proved about the model only at the level of send_tx_queue (their guards select "
+          "polls that ended Pending, counter 0, not Recovering); the poll-level statement is validated on traces. Witness of the refuted clause: "
+          "vsock out 1 1500 1048576 32768 1048576 0 5 10000000000 1 1 100 1 7 1048576 5 1000000 W3000,0 P M2,1,101,0,10,0,0,- P T3000000000 P "
+          "(last poll: ST_DATA seq 102, 991 bytes, first transmission, f_last_remote_window = 0).",
+  "technique": "Coq proof (Hoare-style lemmas per function, induction over the send loops) + differential correspondence + extracted predicates on impl traces",
+}
+CHECKS["C06"] = {
+  "text": "Connection level, about the model's send path, Conn/Recovery.v and Tx/Segments.v, every state, abstract congestion controller; per "
+          "function, not about the whole poll. Theorems (Props/C06.v): c06_rto_resends_first_unacked - at an expiry the RTO part sends exactly the "
+          "first undelivered segment of the table; c06_backoff_doubles / _within_bounds - the timer it leaves is now + min(2 rto, 60 s) for a data "
+          "segment and for the FIN, now + rto with estimator and controller untouched for an MTU probe (boundary B6), rto stays in [200 ms, 60 s]; "
+          "c06_retry_cap_send_data / _rto / _poll, c06_sent_below_cap - a segment at max_segment_retransmissions makes send_data return "
+          "MaxRetransmissionsReached without emitting, send_tx_queue and the poll return that error (FIN retransmissions are not capped by this "
+          "counter: the FIN branch never consults it); c06_never_resend_acked - every ST_DATA of a call names a segment present and undelivered in "
+          "the table with the table's sequence number and carries `size` bytes of the ring at abs - removed; c06_dup_threshold (+ "
+          "c06_count_sack_three/_one, c06_count_non_sack_repeat/_reset, c06_dup_empty_table_resets, c06_dup_ignored_until_recovery_point) - "
+          "Recovering is entered exactly when the counted duplicates reach 3; c06_fast_retransmit - in Recovering with nothing retransmitted yet, "
+          "no RTO mode and no expiry, the first item of the recovery iterator is sent; c06_karn_sample_source, c06_karn - an RTT sample comes "
+          "only from a segment in SentTime state (sent exactly once) and is not taken while Recovering; c06_stable_content_partial, "
+          "c06_joint_inv_ack_then_truncate_partial - PARTIAL: under the joint invariant removed_offset = bytes truncated from the ring a "
+          "datagram's payload is the slice [abs, abs+size) of the written stream, equal for two transmissions with the same (abs, size); "
+          "invariance shown only for the ack-then-truncate step. REFUTED on the real code (finding T1, reported): the poll in which the message "
+          "channel closes returns from process_all_incoming_messages before truncate_front, so a retransmission in that last poll carries other "
+          "bytes (case in the note). Predicates c06_backoff_ok, c06_cap_ok, c06_emitted_live_ok, c06_fast_retx_ok, c06_stable_plen_ok, "
+          "c06_joint_ok (Conn/C06_Pred.v) evaluated on every implementation trace.",
+  "design_ref": "DESIGN.md section 6 C06",
+  "note": "Trusted: as C05. No axioms. Assumed-and-monitored: rto within [200 ms, 60 s] (rto_in_bounds), retransmit counts <= cap, joint ring/table "
+          "invariant until the inbox closes. Payload bytes are compared by hash in the correspondence only; the stability predicate sees sizes. "
+          "T1 witness: vsock out 1 1500 1048576 32768 1048576 0 5 10000000000 1 1 100 1 7 1048576 5 1000000 W1056,0 P M2,1,101,1048576,10,0,0,- Z "
+          "T3000000000 P (seq 102 first carries bytes 528..1055, hash 310180158; its retransmission in the last poll carries bytes 0..527, hash 361003473).",
+  "technique": "Coq proof (Hoare-style lemmas per function, induction over loops and ACK processing) + differential correspondence + extracted predicates on impl traces",
+}
+
 ALL = ["C%02d" % i for i in range(1, 20)]
 NOT_APPLICABLE = {p: "check not built yet at this commit (planned: DESIGN.md section 6); not claimed"
                   for p in ALL if p not in CHECKS}
